@@ -662,7 +662,11 @@ def type_diff_class(a, b):
     return "reparse_type_differs"
 
 
-GENERATOR_KEYWORDS = ["use", "mod", "const", "type", "pub", "enum", "struct", "impl", "trait"]   # what generate/rust.rs escapes today
+# lower-case strict + reserved keywords of the 2021 edition (The Rust Reference): a field so named is emitted with a trailing underscore
+GENERATOR_KEYWORDS = ["as", "break", "const", "continue", "crate", "else", "enum", "extern", "false", "fn", "for", "if", "impl", "in",
+                      "let", "loop", "match", "mod", "move", "mut", "pub", "ref", "return", "self", "static", "struct", "super",
+                      "trait", "true", "type", "unsafe", "use", "where", "while", "async", "await", "dyn",
+                      "abstract", "become", "box", "do", "final", "macro", "override", "priv", "typeof", "unsized", "virtual", "yield", "try"]
 
 
 def types_of(r1):
